@@ -1460,10 +1460,10 @@ def list_index(lst, item, *rest):
 
 
 def m_warn(message, category=None, stacklevel=1, source=None):
-    if isinstance(message, Warning):
-        WARNINGS.append((type(message), message))
-    else:
-        WARNINGS.append((category or UserWarning, message))
+    cat = type(message) if isinstance(message, Warning) else (category or UserWarning)
+    WARNINGS.append((cat, message))
+    # surface it to an enclosing warnings.catch_warnings(record=True) of the harness (message text is opaque)
+    warnings.warn("<sx symbolic run>", cat, stacklevel=2)
 
 
 MODELS[warnings.warn] = m_warn
